@@ -1741,9 +1741,19 @@ class Rule(metaclass=LogicalType):
                 return cls.post_validate(value, context)
 
             try:
-                value = context.transformer.apply(
-                    value, cls.__origin__, func=cls.__origin_transformer__
-                )
+                if (
+                    cls.__args_parser__
+                    and cls.__origin__ in (set, frozenset)
+                    and type(value) in (list, tuple)
+                ):
+                    # Set[T] from an array: the items are parsed by the args parser below, which then builds
+                    # the set - making a set of the raw items first fails for items that only become hashable
+                    # through their own conversion (a JSON array of arrays for Set[Tuple[int, int]])
+                    pass
+                else:
+                    value = context.transformer.apply(
+                        value, cls.__origin__, func=cls.__origin_transformer__
+                    )
             except Exception as e:
                 error = exc.ParseError(origin_exc=e)
                 # if type cannot convert, the following args and constraints cannot validate
